@@ -118,7 +118,7 @@ class HistGen:
         self.odd_symbols = odd_symbols
 
     # -- valid declarations ---------------------------------------------
-    def base_class(self, refless=False, quantum=None):
+    def base_class(self, refless=False, quantum=None, force_parent=False):
         w, rng = self.w, self.rng
         name = w.fresh("B")
         sym = "-" if refless else w.fresh("b")
@@ -129,7 +129,7 @@ class HistGen:
         parents = [n for n, c in w.classes.items()
                    if "items" not in c and c["ref"] is not None and c["quantum"] is None]
         parent = None
-        if quantum is None and parents and rng.random() < .25:
+        if quantum is None and parents and (force_parent or rng.random() < .25):
             # (also a subclass WITHOUT a reference unit of its own: it has none)
             parent = rng.choice(parents)
             rname = f"sub:{parent}:{rname}"
@@ -436,7 +436,7 @@ class HistGen:
                  "wrong-dim-term", "undefined-term", "derive-wrong-count",
                  "derive-wrong-class", "derive-on-base", "dup-dimension",
                  "name-without-symbol", "quantum-without-symbol", "other-def",
-                 "dup-ref-symbol", "dimensionless-term"]
+                 "dup-ref-symbol", "dimensionless-term", "class-def-with-number"]
         rng.shuffle(kinds)
         if only is not None:
             kinds = [k for k in kinds if k in only]
@@ -507,6 +507,17 @@ class HistGen:
                 return self._bad(["decl_class", w.fresh("X"), fmt_cdef(items),
                                   w.fresh("x") if rng.random() < .8 else "-",
                                   "0", "-"], kind)
+            if kind == "class-def-with-number" and len(refcls) >= 2:
+                # a type defined by a term that is not a product of types only
+                # (1000 * A * B): rejected, with or without an explicit symbol
+                # for the reference unit - which must not stay registered
+                a, b = rng.sample(refcls, 2)
+                cdef = fmt_cdef([(a, 1), (b, rng.choice([1, -1, 2]))]) + \
+                    f";n:{rng.choice(['1000', '1/8', '3'])}^1"
+                if rng.random() < .5:
+                    cdef = cdef.split(";")[2] + ";" + ";".join(cdef.split(";")[:2])
+                return self._bad(["decl_class", w.fresh("X"), cdef,
+                                  w.fresh("x") if rng.random() < .7 else "-", "0", "-"], kind)
             if kind == "name-without-symbol":
                 return self._bad(["decl_class", w.fresh("X"), "-", "-", "1", "-"], kind)
             if kind == "quantum-without-symbol":
